@@ -403,6 +403,8 @@ def run_one(ck, prog):
                         if x[0] == "field" and (x[3] or "").endswith("AuxValues"):
                             fields.add(x[2])
         ck.ob("C07.5", f"getter|{g}", fields == {fld}, fn=fn["path"], detail=f"{g} reads fields {sorted(fields)}; must read {fld}")
+        casts = sorted({s["rv"]["ty"] for b in fn["blocks"] for s in b["stmts"] if s["k"] == "assign" and s["rv"]["k"] == "cast" and s["rv"]["ck"] == "IntToInt"})
+        ck.ob("C07.5", f"getter-width|{g}", all(c in ("u32", "u64", "usize", "i64", "u128") for c in casts), fn=fn["path"], detail=f"{g} converts the aux word to {casts}; ids are 32-bit values, a narrower type truncates them")
 
     # ---- C07.6 nothing relocated before relocation ------------------------------------------------------------------------------------
     if rs is not None:
@@ -518,6 +520,11 @@ def check_aux_table(ck, prog, fn):
                   detail=f"the arm for aux key {v} (AT_{(name or '?').upper()}) assigns {sorted(assigned)}; must assign at_{name}")
             ck.ob("C07.5", f"aux-arm-value|AT_{(name or str(v)).upper()}", rhs_ok, fn=fn["path"], detail="the value must be read at key index + 1")
     ck.floor("C07.5", "aux arms", n, 10)
+    # the values are kept whole: the kernel passes words (a uid may be any 32-bit value), every field holds a word
+    adt = next((a for p2, a in prog.adts.items() if p2.endswith("elf::aux::AuxValues") and "tiny_start" in p2), None)
+    if ck.anchor("C07.5", "AuxValues", adt):
+        narrow = [f"{f['name']}: {f['ty']}" for v in adt["variants"] for f in v["fields"] if f["ty"] not in ("usize", "u64")]
+        ck.ob("C07.5", "aux-fields-hold-whole-words", not narrow, fn=fn["path"], detail=f"aux values are machine words; narrower fields truncate them (uid/gid above 65535): {narrow}")
     # step by two words
     step = False
     for b in fn["blocks"]:
